@@ -19,7 +19,11 @@ def _alarm(signum, frame):
 
 
 class budget:
-    """with budget(seconds): ...   raises Hang if the block runs longer (pure-Python code only)."""
+    """with budget(seconds): ...   raises Hang if the block uses more than `seconds` of CPU time (pure-Python code only).
+
+    CPU time (ITIMER_PROF), not wall-clock time: a loop that never ends burns CPU and is caught, while a machine that is
+    busy with other work (the checks run 16 workers, and other checks may run beside them) does not turn a slow parse
+    into a "hang".  A generous wall-clock timer stays armed as a safety net for blocking waits."""
 
     def __init__(self, seconds):
         self.seconds = seconds
@@ -27,14 +31,18 @@ class budget:
     def __enter__(self):
         if self.seconds is None:        # no budget (threads other than the main one cannot use signals)
             return
-        self.old = signal.signal(signal.SIGALRM, _alarm)
-        signal.setitimer(signal.ITIMER_REAL, self.seconds)
+        self.old = signal.signal(signal.SIGPROF, _alarm)
+        self.old_real = signal.signal(signal.SIGALRM, _alarm)
+        signal.setitimer(signal.ITIMER_PROF, self.seconds)
+        signal.setitimer(signal.ITIMER_REAL, max(120.0, 40.0 * self.seconds))
 
     def __exit__(self, *a):
         if self.seconds is None:
             return False
+        signal.setitimer(signal.ITIMER_PROF, 0)
         signal.setitimer(signal.ITIMER_REAL, 0)
-        signal.signal(signal.SIGALRM, self.old)
+        signal.signal(signal.SIGPROF, self.old)
+        signal.signal(signal.SIGALRM, self.old_real)
         return False
 
 
